@@ -832,6 +832,11 @@ func c15RunConnect(iceKind, rvKind string) string {
 //                     rendezvous attempt in flight while the connection is closed), then fails
 //           holdgood  same, but the held poll is then answered by a pion peer (a peer is being
 //                     collected while the connection is closed)
+//           silent    the broker accepts the connection, reads the request and never sends a response
+//                     header (until the scenario is torn down): the attempt in flight ends only by the
+//                     client's own limit (the ResponseHeaderTimeout of the transport NewBrokerChannel
+//                     builds, 15 s); Close is called while it is in flight and is given that limit plus
+//                     c15SilentSlack to return
 //   pre:    none | sess (the smux session has died before the application calls Close)
 //                | pconn (the packet conn was closed first) | stream (the stream was closed first)
 //   closes: c (Close once) | cc (twice, one after the other) | c2 (two overlapping calls)
@@ -842,7 +847,24 @@ func c15RunConnect(iceKind, rvKind string) string {
 const (
 	c15CloseBound = 15 * time.Second
 	c15Straggle   = 5 * time.Second
+	// what the client's own transport allows a broker to stay silent for (client/lib/rendezvous.go,
+	// createBrokerTransport: ResponseHeaderTimeout), and the slack the driver adds to it
+	c15HeaderLimit = 15 * time.Second
+	c15SilentSlack = 10 * time.Second
 )
+
+// silentPoll: the request has been read; no response header is sent until the client gives up (its
+// connection goes away: the request context ends) or the scenario is torn down.
+func (b *c15Broker) silentPoll(req *http.Request) {
+	select {
+	case <-req.Context().Done():
+	case <-b.release:
+	case <-time.After(10 * time.Minute):
+	}
+	b.mu.Lock()
+	b.inflight--
+	b.mu.Unlock()
+}
 
 type c15Remote struct {
 	pc     *webrtc.PeerConnection
@@ -947,7 +969,11 @@ func (b *c15Broker) poll(w http.ResponseWriter, req *http.Request) {
 		b.mu.Lock()
 		n := len(b.times)
 		b.mu.Unlock()
-		b.retryPoll(w, body, n)
+		b.retryPoll(w, req, body, n)
+		return
+	}
+	if first && b.kind == "silent" {
+		b.silentPoll(req)
 		return
 	}
 	if first && (b.kind == "hold" || b.kind == "holdgood") {
@@ -973,7 +999,7 @@ func (b *c15Broker) poll(w http.ResponseWriter, req *http.Request) {
 }
 
 // retryPoll answers poll number n (1-based) of a retry scenario.
-func (b *c15Broker) retryPoll(w http.ResponseWriter, body []byte, n int) {
+func (b *c15Broker) retryPoll(w http.ResponseWriter, req *http.Request, body []byte, n int) {
 	done := func() {
 		b.mu.Lock()
 		b.inflight--
@@ -995,6 +1021,8 @@ func (b *c15Broker) retryPoll(w http.ResponseWriter, body []byte, n int) {
 			return
 		}
 		w.Write(resp)
+	case b.failKind == "silent":
+		b.silentPoll(req)
 	case b.failKind == "unreach":
 		// no HTTP answer at all: the connection is dropped
 		done()
@@ -1142,7 +1170,7 @@ func c15RunCloseScenario(spec string) string {
 		return c15RunRetryScenario(max, kind, k)
 	}
 	ncalls := map[string]int{"c": 1, "cc": 2, "c2": 2}[closes]
-	okKind := kind == "fail" || kind == "good" || kind == "hold" || kind == "holdgood"
+	okKind := kind == "fail" || kind == "good" || kind == "hold" || kind == "holdgood" || kind == "silent"
 	okPre := pre == "none" || pre == "sess" || pre == "pconn" || pre == "stream"
 	if err != nil || max < 1 || ncalls == 0 || !okKind || !okPre {
 		return "!badcase"
@@ -1199,7 +1227,12 @@ func c15RunCloseScenario(spec string) string {
 	rets := make(chan ret, 2)
 	call := func() {
 		conn.Close()
-		rets <- ret{time.Now(), br.flying()}
+		at := time.Now()
+		if kind == "silent" {
+			// the client has given the attempt up; the broker notices when the connection goes away
+			c15Until(3*time.Second, func() bool { return br.flying() == 0 })
+		}
+		rets <- ret{at, br.flying()}
 	}
 	start := time.Now()
 	switch closes {
@@ -1218,6 +1251,12 @@ func c15RunCloseScenario(spec string) string {
 	returned, inflight := 0, 0
 	last := start
 	bound := time.After(c15CloseBound)
+	if kind == "silent" {
+		if br.flying() < 1 {
+			return "setup=notinflight"
+		}
+		bound = time.After(c15HeaderLimit + c15SilentSlack)
+	}
 collect:
 	for returned < ncalls {
 		select {
@@ -1239,6 +1278,10 @@ collect:
 	case <-sc.snowflakes.Melted():
 		melt = 1
 	default:
+	}
+	if kind == "silent" {
+		br.letGo()
+		c15Until(5*time.Second, func() bool { return br.flying() == 0 })
 	}
 	if kind == "hold" || kind == "holdgood" {
 		// a Close that did not wait: let the held attempt finish, so that its peer (if any) is seen
@@ -1280,11 +1323,13 @@ collect:
 // event as the client binary does.  The client has to come round again after each failure (ReconnectTimeout,
 // a constant of 10 s, between attempts; a data channel that never opens takes DataChannelTimeout, another
 // constant of 10 s, by itself) and must in the end hold the peer.  Then the connection is closed.
+// "silent" = the broker reads the request and never answers: the attempt fails by the client's own 15 s limit.
 // Result: att=<attempts made>;ev=<events, '+'-separated>;peer=<live peers held>;ret=<Close returned>/1;melt=;open=;
+// fly=<attempts the broker was still holding when the driver's patience was over>;
 // term=<a rendering panicked>;nilerr=<failure events without an error>
 func c15RunRetryScenario(max int, kind string, k int) string {
 	switch kind {
-	case "ice", "unreach", "refuse", "badjson", "badsdp", "noopen":
+	case "ice", "unreach", "refuse", "badjson", "badsdp", "noopen", "silent":
 	default:
 		return "!badcase"
 	}
@@ -1307,6 +1352,7 @@ func c15RunRetryScenario(max int, kind string, k int) string {
 	}
 	sc := conn.(*SnowflakeConn)
 	defer func() {
+		br.letGo()
 		sc.snowflakes.End()
 		sc.pconn.Close()
 		sc.sess.Close()
@@ -1336,6 +1382,10 @@ func c15RunRetryScenario(max int, kind string, k int) string {
 	}
 	// k failed attempts, ReconnectTimeout apart (each of them may take DataChannelTimeout), then the good one
 	patience := time.Duration(k)*(ReconnectTimeout+DataChannelTimeout)/2 + time.Duration(k)*2*time.Second + DataChannelTimeout + 10*time.Second
+	if kind == "silent" {
+		// each failed attempt lasts as long as the client's own limit on a silent broker
+		patience += time.Duration(k) * (c15HeaderLimit + c15SilentSlack)
+	}
 	if kind == "ice" {
 		// every attempt fails: wait for attempt k+1 to have been made and reported
 		c15Until(patience, func() bool {
@@ -1346,6 +1396,10 @@ func c15RunRetryScenario(max int, kind string, k int) string {
 		c15Until(patience, func() bool { return br.remoteOpened() >= 1 && live() >= 1 })
 	}
 	// Collect is over when it lets go of the lock: every event of the attempt has been delivered
+	fly := br.flying() // attempts the broker is still holding: a silent one the client has not given up
+	if fly > 0 {
+		br.letGo()
+	}
 	peer := live()
 	att := attempts()
 	log, _, _ := ev.snapshot()
@@ -1378,5 +1432,5 @@ func c15RunRetryScenario(max int, kind string, k int) string {
 		open = n
 	}
 	_, term, nilerr := ev.snapshot()
-	return fmt.Sprintf("att=%d;ev=%s;peer=%d;ret=%d/1;melt=%d;open=%d;term=%d;nilerr=%d", att, evs, peer, returned, melt, open, c15Bit(term), nilerr)
+	return fmt.Sprintf("att=%d;ev=%s;peer=%d;ret=%d/1;melt=%d;open=%d;fly=%d;term=%d;nilerr=%d", att, evs, peer, returned, melt, open, fly, c15Bit(term), nilerr)
 }
